@@ -96,11 +96,15 @@ MisFam == [k \in AttrKeys |->
                  x \in { a \in RealAlgs : Family(a) = k.kty /\ a # k.alg } }
              \cup { [part |-> "F", side |-> "builder", calg |-> x, haskey |-> 1, key |-> [k EXCEPT !.priv = 1], route |-> "cb-alg", halg |-> "none", sig |-> "empty"] :
                  x \in { a \in RealAlgs : Family(a) = k.kty /\ a # k.alg } }]
+\* ... and when the callback's key DOES carry an attribute, that attribute (not the default key's, not the object's
+\* explicit algorithm) is its pin
+SwapFam2 == [k \in AttrKeys |-> UNION { { [SwapCell(k, sd, a, h) EXCEPT !.route = r] : a \in {"none", h}, r \in {"cb-swap", "cb-swapn"} }
+                                       : h \in FamAlgs(k) \ {k.alg}, sd \in {"checker", "builder"} }]
 Dflt(c) == [OtherKey(c.key) EXCEPT !.alg = c.halg, !.priv = c.key.priv]
 
 \* ------------------------------------------------------------- scripts
 KeyOf(c) == IF c.side = "builder" /\ c.part = "A" THEN [c.key EXCEPT !.priv = 1] ELSE c.key
-Kds(c) == IF c.route = "cb-swap" THEN <<Dflt(c), c.key>> ELSE IF c.haskey = 1 THEN <<KeyOf(c)>> ELSE <<>>
+Kds(c) == IF c.route \in {"cb-swap", "cb-swapn"} THEN <<Dflt(c), c.key>> ELSE IF c.haskey = 1 THEN <<KeyOf(c)>> ELSE <<>>
 Idx(c) == IF c.haskey = 1 THEN 0 ELSE -1
 SigOf(c) == CASE c.sig = "empty" -> EmptySig
               [] c.sig = "garbage" -> [Sig("garbage", "HS256", DummyKey) EXCEPT !.cls = "garbage"]
@@ -115,6 +119,7 @@ Prog(c) == CASE c.route = "cb-both" -> <<CbKey(Idx(c)), CbAlg(c.calg)>>
              [] c.route = "cb-key" -> <<CbKey(Idx(c))>>
              [] c.route = "cb-alg" -> <<CbAlg(c.calg)>>
              [] c.route = "cb-swap" -> <<CbKey(1)>>
+             [] c.route = "cb-swapn" -> <<CbKey(1), CbAlg("none")>>
              [] OTHER -> <<>>
 ConfigOps(c) ==
   IF c.side = "checker"
@@ -122,12 +127,12 @@ ConfigOps(c) ==
                         [] c.route = "pre" -> <<CSetKeyOp(Native(c.key), 0), VerifyOp(Tok(Native(c.key), <<>>, <<>>, Sig("valid", Native(c.key), c.key))),
                                                 CSetKeyOp(c.calg, 0)>>
                         [] c.route = "cb-alg" -> <<CSetKeyOp("none", Idx(c)), CSetCbOp(Prog(c))>>
-                        [] c.route = "cb-swap" -> <<CSetKeyOp(c.calg, 0), CSetCbOp(Prog(c))>>
+                        [] c.route \in {"cb-swap", "cb-swapn"} -> <<CSetKeyOp(c.calg, 0), CSetCbOp(Prog(c))>>
                         [] OTHER -> <<CSetCbOp(Prog(c))>>)
   ELSE <<BNewOp>> \o (CASE c.route = "setkey" -> <<BSetKeyOp(c.calg, Idx(c))>>
                         [] c.route = "pre" -> <<BSetKeyOp(Native(c.key), 0), GenerateOp(1), BSetKeyOp(c.calg, 0)>>
                         [] c.route = "cb-alg" -> <<BSetKeyOp("none", Idx(c)), BSetCbOp(Prog(c))>>
-                        [] c.route = "cb-swap" -> <<BSetKeyOp(c.calg, 0), BSetCbOp(Prog(c))>>
+                        [] c.route \in {"cb-swap", "cb-swapn"} -> <<BSetKeyOp(c.calg, 0), BSetCbOp(Prog(c))>>
                         [] OTHER -> <<BSetCbOp(Prog(c))>>)
 Script(c) == (IF c.haskey = 1 THEN <<LoadOp(Kds(c))>> ELSE <<>>) \o ConfigOps(c)
              \o (IF c.side = "checker" THEN <<VerifyOp(TokOf(c))>> ELSE <<GenerateOp(0)>>)
@@ -137,11 +142,11 @@ Rs(c) == RingsOf(Kds(c))
 It(c) == ItemOf(Kds(c), Idx(c))
 Ck(c) == CASE c.route \in {"setkey", "pre"} -> CheckerWith(c.calg, It(c))
            [] c.route = "cb-alg" -> WithCb(CheckerWith("none", It(c)), Prog(c))
-           [] c.route = "cb-swap" -> WithCb(CheckerWith(c.calg, It(c)), Prog(c))
+           [] c.route \in {"cb-swap", "cb-swapn"} -> WithCb(CheckerWith(c.calg, It(c)), Prog(c))
            [] OTHER -> WithCb(NewChecker, Prog(c))
 Bd(c) == CASE c.route \in {"setkey", "pre"} -> BuilderWith(c.calg, It(c))
            [] c.route = "cb-alg" -> WithCb(BuilderWith("none", It(c)), Prog(c))
-           [] c.route = "cb-swap" -> WithCb(BuilderWith(c.calg, It(c)), Prog(c))
+           [] c.route \in {"cb-swap", "cb-swapn"} -> WithCb(BuilderWith(c.calg, It(c)), Prog(c))
            [] OTHER -> WithCb(NewBuilder, Prog(c))
 VRef(c) ==
   LET pt == ParseForge(TokOf(c)) cb == VerifyCfg(Ck(c), pt, Rs(c))
@@ -159,6 +164,7 @@ MCInit == /\ Init /\ done = FALSE
              \/ \E k \in DOMAIN PreFam : cell \in PreFam[k]
              \/ \E k \in DOMAIN SwapFam : cell \in SwapFam[k]
              \/ \E k \in DOMAIN MisFam : cell \in MisFam[k]
+             \/ \E k \in DOMAIN SwapFam2 : cell \in SwapFam2[k]
 \* stage 'faults': every allocation request made inside jwt_checker_verify fails once on the classic substitutions
 FaultKeys == { AsymKey("rsa2048a", 0, NONE, NONE), AsymKey("p256a", 0, "ES256", NONE), OctKey(32, "a", NONE, NONE) }
 FaultCells ==
